@@ -85,6 +85,9 @@ func c11Run(c *Ctx) {
 		if y := c.L("gen:y"); y.Chance(1, 3) {
 			o.Top64 = 1 + y.Intn(7) // moov / xpacket / preview boxes with 64-bit sizes
 		}
+		if y := c.L("gen:y"); y.Chance(1, 4) {
+			o.CTBO = 1 + y.Intn(15) // five to seven CTBO records, count field up to three beyond them
+		}
 		if y := c.L("gen:y"); o.Preview != nil && y.Chance(1, 4) {
 			// the PRVW header's jpeg-size field disagrees with what the box holds: the payload is
 			// what the box holds
